@@ -96,6 +96,8 @@ def world_strategy(cfg, out_kinds=("sibling", "sibling", "abs", "nested", "rel_u
     tree_kw = dict(TREE_KW[cfg["tree"]])
     tree_kw["odd_names"] = cfg.get("odd_names", False)
     tree_kw["duplicates"] = cfg.get("duplicates", False)
+    if cfg.get("backslash_names"):
+        tree_kw["extra_dirnames"] = ["win\\util", "a\\b"]
     tree_kw.update(tree_kw_extra or {})
 
     @st.composite
@@ -117,7 +119,7 @@ def world_strategy(cfg, out_kinds=("sibling", "sibling", "abs", "nested", "rel_u
                 site.tree["zz_out-notes/n9.cmake"] = "set(zqsibling 1)\n"
         else:
             out = posixpath.join(site.rel, "out") if site.rel else "out"
-        prefix = draw(st.sampled_from([None, None] + PREFIXES))
+        prefix = draw(st.sampled_from([None, None] + PREFIXES + (["acme\\cmake"] if cfg.get("backslash_names") else [])))
         rst = {}
         if cfg.get("rst_opts"):
             sep = draw(st.sampled_from(SEPS))
@@ -370,8 +372,10 @@ def evaluate(spec, ctx):
             for k, text in ref_pages.items():
                 pth = os.path.join(base, spec["out"], k)
                 os.makedirs(os.path.dirname(pth), exist_ok=True)
-                with open(pth, "w") as f:
-                    f.write(text[: len(text) // 2] if (len(k) + len(text)) % 2 else text + "\nSTALE TAIL OF AN OLDER, LONGER PAGE\n" * 3)
+                sel = (len(k) + len(text)) % 3
+                with open(pth, "w", newline="") as f:
+                    f.write(text[: len(text) // 2] if sel == 0 else
+                            (text + "\nSTALE TAIL OF AN OLDER, LONGER PAGE\n" * 3 if sel == 1 else text.replace("\n", "\r\n")))
                 os.utime(pth, (future, future))
             overlay, argv = variant_setup(spec, var0)
             core.materialise(base, {k: v.replace("{BASE}", base) for k, v in overlay.items()})
